@@ -1211,6 +1211,11 @@ class Node:
                 peer_list.append(peer)
         app._node = self
         app.start()
+        # the application may be registered while its peers are connected
+        for peer in peers:
+            if peer.connection and peer.connection.state in PEER_READY_STATES:
+                app.is_ready.set()
+                break
 
     def add_peer(self, peer_uri: str, realm_name: str = None,
                  ip_addresses: list[str] = None,
